@@ -117,6 +117,15 @@ def r2_declaration_attributes(ctx, rep):
         rep.ob(f"{q} access attributes", ok and bool(assigns),
                f"recognises {sorted(vals)} and assigns the permission" if ok and assigns else
                f"recognises {sorted(vals)} (expected {sorted(want)})", py.nloc(node))
+        # the compared text is normalised: lower-cased and free of surrounding blanks
+        var = ast.unparse(node.left)
+        defs = [ast.unparse(n.value) for n in ast.walk(fn) if isinstance(n, ast.Assign)
+                and ast.unparse(n.targets[0]) == var]
+        norm = any(".lower()" in d and (".strip()" in d or ".replace(' ', '')" in d) for d in defs)
+        rep.ob(f"{q}: attribute text is stripped and lower-cased before the test", norm,
+               f"{var} = {defs[0] if defs else '?'}" if norm else
+               f"`{var}` is defined as {defs}: an attribute written after a comma and a blank (`type, abstract, private :: t`) "
+               f"keeps the blank and no longer equals 'private'", py.nloc(node))
     # lowered + blanks removed before the test in line_to_variables
     fn = py.func("sourceform.line_to_variables")
     ok = "tmp_attrib.lower().replace(' ', '')" in ast.unparse(fn)
@@ -228,10 +237,20 @@ def r4_order_sensitivity(ctx, rep):
 
 def r5_interface_and_constructor(ctx, rep):
     py = ctx.py
-    p = py.func("FortranProcedure.permission")
-    t = ast.unparse(p)
-    ok = "if self.is_interface_procedure" in t and "return self.parent.permission" in t and "return self._permission" in t
-    rep.ob("interface procedures take the interface's permission", ok, "", py.nloc(p))
+    if not py.has_func("FortranProcedure.permission"):
+        # the delegating property is gone: is the interface's permission propagated some other way?
+        pa = ast.unparse(py.func("FortranCodeUnit.process_attribs"))
+        alt = "item.procedure.permission = attr" in pa
+        rep.ob("interface procedures take the interface's permission", alt,
+               "process_attribs propagates access statements to the wrapped procedure" if alt else
+               "FortranProcedure.permission is no longer a property delegating to the enclosing (non-generic) interface: "
+               "an access statement naming an abstract interface / interface body changes the wrapper only and the "
+               "procedure keeps the scope default", py.nloc(py.cls("FortranProcedure").node))
+    else:
+        p = py.func("FortranProcedure.permission")
+        t = ast.unparse(p)
+        ok = "if self.is_interface_procedure" in t and "return self.parent.permission" in t and "return self._permission" in t
+        rep.ob("interface procedures take the interface's permission", ok, "", py.nloc(p))
     ip = py.func("FortranProcedure.is_interface_procedure")
     ok = "isinstance(self.parent, FortranInterface) and (not self.parent.generic)" in ast.unparse(ip)
     rep.ob("is_interface_procedure = parent is a non-generic interface", ok, "", py.nloc(ip))
